@@ -51,10 +51,16 @@ def main() -> None:
             continue
         m = json.loads(mf.read_text())
         al = m.get("alarms", {})
-        krows.append(f"| {d.name} | {m.get('property', d.name[:3])} | {short(m.get('summary', ''), 260)} | {m.get('what_i_ran', {}).get('demo_output_lines', '?')} | "
-                     f"{'yes' if m.get('confirmed') else '**no**'} | {'none' if not al else '; '.join(f'**{k}** `{short(v[0], 60)}`' for k, v in sorted(al.items()))} |")
-    ktable = ["| refactoring | anchored in | what was restructured (agent's summary, shortened) | demo lines compared | output identical, suite green | alarms of the committed checks |",
-              "|---|---|---|---|---|---|"] + krows
+        sib = m.get("sibling_violations", {})
+        unrev = m.get("unreviewed_alarms", {k: v for k, v in al.items() if k not in sib})
+        cell = "none" if not al else "; ".join(
+            f"**{k}** `{short(v[0], 60)}`" + (" (reviewed: true violation of this sibling property by the new feature)" if k in sib and k not in unrev else " (**unreviewed**)")
+            for k, v in sorted(al.items()))
+        kind = "extension" if m.get("kind") == "keep-extension" else "refactoring"
+        krows.append(f"| {d.name} | {kind} | {m.get('property', d.name[:3])} | {short(m.get('summary', ''), 260)} | {m.get('what_i_ran', {}).get('demo_output_lines', '?')} | "
+                     f"{'yes' if m.get('confirmed') else '**no**'} | {cell} |")
+    ktable = ["| change | kind | anchored in | what was restructured / added (agent's summary, shortened) | demo lines compared | output identical (extensions: Part A identical, Part B OK), suite green | alarms of the committed checks |",
+              "|---|---|---|---|---|---|---|"] + krows
     kblock = KB + "\n" + "\n".join(ktable) + "\n" + KE
     if KB in s:
         s = re.sub(re.escape(KB) + r".*?" + re.escape(KE), lambda _: kblock, s, flags=re.S)
